@@ -306,6 +306,10 @@ func (e *env) snapshot(th *lua.LState) []string {
 			switch {
 			case f.Fn == nil:
 				out = append(out, "G")
+			case !f.Fn.IsG && f.Pending == lua.OP_TAILCALL && i+1 < len(frames) && frames[i+1].Fn != nil && frames[i+1].Fn.IsG:
+				// pending in a tail call of a Go function: the frame is removed when that function
+				// returns (or is unwound) and never runs another instruction -- it is already gone
+				// as far as the machine is concerned
 			case !f.Fn.IsG:
 				if flag {
 					out = append(out, "L")
